@@ -71,6 +71,15 @@ def run(tier, seed):
                                  'counted_as_proved': False, 'kind': 'bounded native: object identity of every argument with the name table'})
             if r.get('confirmed'):
                 pack.violation(name, {'bounded': True, 'inputs': r.get('inputs'), 'observed': r.get('observed'), 'native_cmd': r.get('native_cmd')})
+        from contracts import bounded_regen
+        name = 'C02/andes/system.py:System.undill;prepare;_load_calls/bounded:code-regenerated-inside-a-running-process-is-the-code-that-runs-afterwards'
+        r = native_guard(pack, name, bounded_regen.run)
+        if r is not None:
+            nr_, badr_ = r
+            pack.bounded.append({'function': 'System() twice in one process with an equation edited in between (stale code detected, regenerated, reloaded)', 'runs': nr_,
+                                 'counted_as_proved': False, 'kind': 'bounded native: child process with a copy of the generated code as its home'})
+            if badr_:
+                pack.violation(name, {'bounded': True, 'inputs': badr_, 'native_cmd': 'contracts/bounded_regen.py'})
         from contracts import bounded_binding
         name = 'C02/andes/system.py:System._load_calls;_expand_pycode/bounded:every-calls-slot-holds-the-object-of-the-model\'s-own-generated-module-named-for-it'
         r = native_guard(pack, name, bounded_binding.run)
